@@ -93,7 +93,7 @@ var tmplA, tmplB *conn.SecretConnection
 func streamTemplates(r *vk.Run) bool {
 	_, _, ra, rb := handshakePair(keyA, 11, keyB, 12, false)
 	if ra.err != nil || rb.err != nil {
-		r.Violation("handshake:honest-peer-rejected", fmt.Sprintf("honest handshake failed: A: %v, B: %v", ra.err, rb.err), map[string]interface{}{"part": "stream", "step": "template handshake"})
+		r.Violation("handshake:honest-peer-rejected:plain", fmt.Sprintf("honest handshake failed: A: %v, B: %v", ra.err, rb.err), map[string]interface{}{"part": "stream", "step": "template handshake"})
 		return false
 	}
 	tmplA, tmplB = ra.sc, rb.sc
@@ -330,7 +330,7 @@ func streamGroups(r *vk.Run) []streamGroup {
 							bound = 3
 						case len(w) <= 2 && est <= 600, len(p) == 1 && !drainEach && est <= 100:
 							bound = 2
-						default:
+						case est <= 70000:
 							bound = 1
 						}
 					}
